@@ -249,6 +249,17 @@ def make_noninterf(file, fn):
 for _f in NONINTERF:
     make_noninterf(*_f)
 
+# ------------------------------------------------------------------------------------------------
+# The decoupling argument (dimensionless a_mu functions of mass ratios) rests on the loop functions being their published definitions, which grow at most
+# logarithmically: C01's definition contracts of every one-variable loop function the MSSM contributions call are re-registered here as callee contracts,
+# so that the C07 check decides the chain by itself (a new "large-argument expansion" with a wrong power of z breaks decoupling and fails here).
+from gm2v.ob import REGISTRY as _REG, Obligation as _Ob
+from contracts import c01 as _c01
+for _f in ('F1C', 'F2C', 'F3C', 'F4C', 'F1N', 'F2N', 'F3N', 'F4N', 'f_PS', 'f_S', 'f_sferm'):
+    for _o in _REG.get('C01', []):
+        if _o.oid == 'C01.%s.def' % _f:
+            _REG.setdefault('C07', []).append(_Ob('C07.callee.%s.def' % _f, _o.func, _o.fns, _o.tier, _o.backend, _o.doc, _o.replay, 'C07'))
+
 
 def fidelity(tier, seed):
     """A-FRONT guard: MSSM a_mu and mass-matrix functions, interpreter (float mode) vs compiled real code on real spectra"""
